@@ -61,7 +61,15 @@ def root_acts(h):
     return {(s["act"], s["arg"]) for s in h if s["src"] == 1 and s["act"] != "mutate"}
 
 
-def choose_histories(rng, pools, inst, n_extra):
+def _h(*steps):
+    return json.dumps([{"act": a, "arg": g, "src": s} for (a, s, g) in steps], sort_keys=True)
+
+
+CHAIN_REBIND = _h(("rebind", 1, "v1"), ("flat_pl", 2, ""), ("flat_jax", 2, ""))
+CHAIN_BIND = _h(("bind", 1, ""), ("flat_jax", 2, ""), ("pickle", 2, ""))
+
+
+def choose_histories(rng, pools, inst, n_extra, idx=0):
     """Histories for one instance: a seeded greedy cover of every root-level action (each class has its own _flatten,
     __copy__, dispatch ...) plus n_extra random histories (chains / in-place writes)."""
     key = (inst.is_mp, inst.int_wires)
@@ -80,11 +88,17 @@ def choose_histories(rng, pools, inst, n_extra):
         chosen.append(best)
     for _ in range(n_extra):
         chosen.append(rng.choice(pools["deepwrite"][key] if rng.random() < 0.7 else extra_pool))
+    # two fixed chains (members of TLC's set) so that composition defects show up for every seed: reproduce a REBOUND object
+    # through both pytrees, reproduce a CAPTURE-BOUND object through a pytree and pickle
+    if not inst.is_mp and CHAIN_REBIND in pools["all"]:
+        chosen.append(json.loads(CHAIN_REBIND))
+    if inst.int_wires and (inst.is_mp or idx % 5 == 0) and CHAIN_BIND in pools["all"]:
+        chosen.append(json.loads(CHAIN_BIND))
     return chosen
 
 
 def make_pools(hists, bind_in_chains):
-    pools = {}
+    pools = {"all": {json.dumps(h[:3], sort_keys=True) for h in hists}}      # 3-step prefixes of TLC's behaviours
     for is_mp in (False, True):
         for int_w in (False, True):
             ok = []
@@ -188,7 +202,7 @@ def replay_history(inst, hist, stats, texts):
         events, info = [], []
         tbl, tbl_ix = [], {}
         node_enc = {}
-        rebound = [False]
+        rebound, bound = [False], [False]
 
         def intern(c):
             """content records are stored once per trace (compression only: TLC looks the records up and compares them)"""
@@ -255,10 +269,12 @@ def replay_history(inst, hist, stats, texts):
                 note = S.classify_cells(src, [pc])
             elif act == "bind":
                 note = S.wrapper_features(src)
-            if act in PRESERVING and act != "deep" and rebound[s - 1]:
-                note = (note + "+" if note else "") + "after-rebind"        # the source was produced (directly or not) by rebind
+            if act in PRESERVING and act != "deep" and (rebound[s - 1] or bound[s - 1]):
+                # the source was produced (directly or not) by rebind / by capture binding
+                note = "+".join(x for x in (note, "after-rebind" if rebound[s - 1] else "", "after-bind" if bound[s - 1] else "") if x)
             if new is not None:
                 rebound.append(act == "rebind" or rebound[s - 1])
+                bound.append(act == "bind" or bound[s - 1])
             events.append({"act": act, "src": s, "dst": len(nodes) if new is not None else (s if act == "mutate" else 0),
                            "pre": [intern(c) for c in pre], "post": [intern(c) for c in post],
                            "cells": cells, "newp": newp_tok, "eq": eq, "exc": exc, "mc": mc, "prov": [dict(p) for p in prov], "note": note})
@@ -349,7 +365,7 @@ def run(tier, seed):
         raise lib.MachineryError(f"instance space collapsed: {len(insts)} instances, dropped recipes {dropped[:8]}")
     pools = make_pools(hists, bind_in_chains=tier != "quick")
     n_extra = 1 if tier == "quick" else 4
-    plan = [(inst, choose_histories(rng, pools, inst, n_extra)) for inst in insts]
+    plan = [(inst, choose_histories(rng, pools, inst, n_extra, idx)) for idx, inst in enumerate(insts)]
     return _judge(plan, tier, t0, g=g, n_hists=len(hists), model_negs=model_negs, steps=steps, insts=insts, dropped=dropped, full=True)
 
 
